@@ -69,6 +69,12 @@ class _AsyncBridge:
             self.close()
             raise StopIteration from None
 
+    def idle(self, seconds: float):
+        """The consumer awaits something else for a while: the event loop keeps running (background tasks of the
+        iterator get their turns) but nothing is requested from the iterator."""
+        if not self.loop.is_closed():
+            self.loop.run_until_complete(asyncio.sleep(seconds))
+
     def close(self):
         if not self.loop.is_closed():
             try:
@@ -96,7 +102,10 @@ def read_ids(ds, iface: str, split: str, *, take: int | None = None, stall=None,
             if isinstance(e, dict):
                 e.clear()
             if stall is not None and len(got) == stall[0]:
-                time.sleep(stall[1])
+                if isinstance(it, _AsyncBridge):
+                    it.idle(stall[1])       # an async consumer that is busy still lets its event loop run
+                else:
+                    time.sleep(stall[1])
         return got
     finally:
         close = getattr(it, "close", None)
